@@ -234,7 +234,7 @@ func runSelfTest(pd *PropDoc, verif string, pkgs map[string]bool) []selfTestResu
 	}
 	// seeded changes written by independent sub-agents (seeded/<ID>-s<k>/patch.diff; expectation in expect.txt, written by
 	// tools/seeded_eval.py: "fire:<rules>" or "not-decided" for the changes no sound static rule reaches)
-	seeds, _ := filepath.Glob(filepath.Join(verif, "seeded", pd.ID+"-[stuv]*", "patch.diff"))
+	seeds, _ := filepath.Glob(filepath.Join(verif, "seeded", pd.ID+"-[s-z]*", "patch.diff"))
 	sort.Strings(seeds)
 	ents = append(ents, seeds...)
 	openKnown := map[string]bool{}
